@@ -141,6 +141,11 @@ def gen_ranges(rng, strings, ty="?", count_name=None):
             if rng.chance(1, 4):
                 pairs.reverse()
             items.append(O(pairs))
+    if isf and rng.chance(1, 3):
+        # an exact value declared *after* a branch whose bounds contain it: the earlier branch wins (first match)
+        earlier = [x for it in items[1 if ty is not None else 0:] for x in _NUM.findall(json.dumps(it)) if "." in x]
+        if earlier:
+            items.append(A([strings(rng), rng.pick(earlier)]))
     if fallback:
         val = strings(rng)
         k = rng.below(4)
@@ -177,7 +182,19 @@ def gen_key_value(rng, plan, locale_is_default, all_paths, rec=None):
             rec["src"] = src
         return gen.print_src(src)
     if k == "lit":
-        return rng.pick([U(rng.range(0, 99)), I(-rng.range(1, 99)), F(rng.pick(["1.5", "0.25", "10.0", "-2.5"])), True, False, "plain"])
+        lk = getattr(plan, "lit_kind", "mixed")
+        if lk == "mixed":
+            lk = rng.pick(["u", "i", "f", "b", "s"])
+        if lk == "u":
+            return U(rng.pick([rng.range(0, 99), 0, 18446744073709551615]))
+        if lk == "i":
+            return I(-rng.pick([rng.range(1, 99), 9223372036854775808]))
+        if lk == "f":
+            # integral and very large / small floats too: their Display and Debug forms differ
+            return F(rng.pick(["1.5", "0.25", "10.0", "-2.5", "2.0", "10000000000000000.0", "0.00001", "-0.5"]))
+        if lk == "b":
+            return rng.chance(1, 2)
+        return "plain"
     if k == "ranges":
         return gen_ranges(rng, branch_string(plan.vars), ty=plan.ty)
     if k == "fk":
@@ -256,10 +273,20 @@ def gen_locale_tree(rng, plans, locale, is_default, opts, depth=0, meta=None, ns
             infix = "_ordinal" if plan.ordinal else ""
             rec["forms"] = {}
             rec["ordinal"] = plan.ordinal
+            ft = (opts.get("_form_targets") or {}).get(ns) or []
             for f in forms:
                 src = gen.gen_src(rng, maxn=3, comps=False, fmts=False, vars_=plan.vars + ["count"])
                 rec["forms"][f] = src
-                pairs.append((f"{key}{infix}_{f}", gen.print_src(src)))
+                text = gen.print_src(src)
+                if ft and rng.chance(1, 6):
+                    # a reference inside a plural form (any form, `other` included; cardinal and ordinal)
+                    text = rng.pick([text + " $t(" + rng.pick(ft) + ")", "$t(" + rng.pick(ft) + ") " + text])
+                    rec["fk_in_form"] = True
+                pairs.append((f"{key}{infix}_{f}", text))
+        elif not is_default and rng.chance(1, 40) and opts.get("mismatch", True):
+            # the other direction: a group where the default locale has a value
+            rec["kind"] = "mismatch"
+            pairs.append((key, O([("inner", "a group where a value is expected")])))
         else:
             p = plan
             if not is_default and rng.chance(1, 8) and opts.get("mixed", True):
@@ -289,7 +316,8 @@ def gen_plans(rng, depth=0, opts=None):
         if r < 9:
             plans.append((key, Plan("string", vars=vs or ["x"])))
         elif r < 11:
-            plans.append((key, Plan("lit")))
+            # one literal type for the key in every locale (two times out of three), else a type per locale
+            plans.append((key, Plan("lit", lit_kind=rng.pick(["u", "i", "f", "f", "b", "s", "mixed", "mixed", "mixed"]))))
         elif r < 14:
             plans.append((key, Plan("ranges", vars=vs, ty=rng.weighted([(5, None), (1, "i8"), (1, "u8"), (1, "u64"), (1, "i64"), (2, "f32"), (1, "f64"), (1, "u16")]))))
         elif r < 17:
@@ -301,7 +329,8 @@ def gen_plans(rng, depth=0, opts=None):
             plans.append((key, Plan("string", vars=vs or ["x"])))
     if depth < 2 and rng.chance(1, 2):
         g = rng.pick(GROUP_POOL)
-        plans.append((g, Plan("group", children=gen_plans(rng, depth + 1, opts))))
+        # one group in ten is empty (`"menu": {}`): still a key of the reference key set
+        plans.append((g, Plan("group", children=[] if rng.chance(1, 10) else gen_plans(rng, depth + 1, opts))))
     return plans
 
 
@@ -367,6 +396,10 @@ def gen_project(rng, opts=None):
         all_plans[ns] = plans
     # effective locale order as the implementation will use it is computed by the config model
     meta = {}
+    if opts.get("fk", True):
+        # top-level keys written as plain strings in every plan: possible targets of references placed inside plural forms
+        opts["_form_targets"] = {ns: [((ns + ":") if ns else "") + k for k, pl in all_plans[ns] if pl.kind == "string" and "-" not in k][:3]
+                                 for ns in (namespaces or [None])}
     for ns in (namespaces or [None]):
         for l in sorted(set(locales)):
             files[(ns, l)] = gen_locale_tree(rng, all_plans[ns], l, l == default, opts, 0, meta, ns, ())
